@@ -58,7 +58,8 @@ CLAIMED = {
              "util.un_camel, C_name / F_name_impl / F_name_generic templates): for defaulted suffixes, any number of overloads and "
              "trailing default arguments, exactly one C entry point and one Fortran specific per callable signature, pairwise "
              "distinct under a stated separability of the underscore names (unbounded, by induction over positions); generic name = "
-             "underscore form of the C++ name. The full statement is refuted by two witnesses (explicit function_suffix with default "
+             "underscore form of the C++ name; an explicit suffix on one member of an overload set that spells the number of its own "
+             "position changes no emitted name (pinning theorem). The full statement is refuted by two witnesses (explicit function_suffix with default "
              "arguments; an overload number colliding with another function's name) = known findings. Tie: extracted model vs the "
              "function nodes of real runs (C_name, F_name_impl, F_name_generic, order) incl. explicit suffixes, templates and "
              "fortran_generic in global / namespace / class scopes. Search: duplicates, counts and generic-interface membership in the "
